@@ -33,10 +33,12 @@ def main():
     rp = os.path.join(V, "tools", "props", "not_claimed.json")
     if os.path.exists(rp):
         reasons = json.load(open(rp))
+    # properties whose worker has finished and whose quick check was seen passing on the unchanged tree
+    ready = set(json.load(open(os.path.join(V, "tools", "props", "ready.json"))))
     checks, na, served = [], [], []
     for pid in ALL:
         m = module_manifest(pid)
-        if m and os.path.exists(os.path.join(V, "coq", "Properties", pid + ".v")):
+        if pid in ready and m and os.path.exists(os.path.join(V, "coq", "Properties", pid + ".v")):
             served.append(pid)
             checks.append({
                 "property_id": pid,
